@@ -377,6 +377,12 @@ class EscapeAnalysis:
                 return self.exc_classes_of_expr(func, e.func.value, caught,
                                                 depth)
             d = dotted(e.func)
+            if isinstance(e.func, ast.Name) and e.func.id in func.params:
+                # raise exc_class(...): the class is an argument; what the
+                # callers in the same class / module pass for it
+                got = self._param_classes(func, e.func.id)
+                if got:
+                    return got
             if d is not None:
                 simple = d.split('.')[-1]
                 r = self.res.lookup_name(func, d.split('.')[0])
@@ -428,6 +434,39 @@ class EscapeAnalysis:
             if d is not None:
                 return [d.split('.')[-1]]
         return ['Exception']
+
+    def _param_classes(self, func, pname):
+        """class names passed for parameter `pname` of `func` at its call
+        sites in the same class (self.f(...)) or module (f(...)); [] when a
+        site passes something that is not a class name"""
+        params = [p for p in func.params if p not in ('self', 'cls')]
+        if pname not in params:
+            return []
+        pos = params.index(pname)
+        scope = list(func.cls.methods.values()) if func.cls is not None \
+            else list(func.module.functions.values())
+        out = []
+        for g in scope:
+            for c in ast.walk(g.node):
+                if not isinstance(c, ast.Call):
+                    continue
+                d = dotted(c.func) or ''
+                if d not in (func.name, 'self.' + func.name,
+                             'cls.' + func.name):
+                    continue
+                arg = None
+                if pos < len(c.args):
+                    arg = c.args[pos]
+                for k in c.keywords:
+                    if k.arg == pname:
+                        arg = k.value
+                if not isinstance(arg, ast.Name):
+                    return []
+                r = self.res.lookup_name(g, arg.id)
+                if r is None or r[0] not in ('class', 'builtin'):
+                    return []
+                out.append(arg.id)
+        return sorted(set(out))
 
     def returned_exceptions(self, f):
         if f.fq in self._ret_exc:
@@ -616,6 +655,150 @@ class EscapeAnalysis:
                 return True
         return False
 
+    def _single_char(self, func, e, stmt):
+        """the string `e` is known to have length 1 at `stmt`: an indexed
+        character, capturing group k of a module regex whose group k
+        matches exactly one character, or a value whose len() is pinned to
+        1 by the facts that hold at the statement"""
+        from . import rx
+        from .guards import regex_const
+        if isinstance(e, ast.Subscript) and \
+                not isinstance(e.slice, ast.Slice):
+            return True
+        # len() facts: len(e) or a local L = len(e) compared with constants
+        txt = norm(e)
+        lens = {'len(%s)' % txt}
+        for n in walk_no_nested(func.node):
+            if isinstance(n, ast.Assign) and len(n.targets) == 1 and \
+                    isinstance(n.targets[0], ast.Name) and \
+                    norm(n.value) == 'len(%s)' % txt:
+                lens.add(n.targets[0].id)
+        facts = self.facts(func).get(stmt, ((), ()))[0]
+        cons = []
+        from .cfg import GuardWalker
+        for t, pol in facts:
+            for a, q in GuardWalker._atoms(t, pol):
+                if isinstance(a, ast.Compare) and len(a.ops) == 1 and \
+                        norm(a.left) in lens and \
+                        isinstance(a.comparators[0], ast.Constant) and \
+                        isinstance(a.comparators[0].value, int):
+                    cons.append((type(a.ops[0]).__name__,
+                                 a.comparators[0].value, q))
+        if cons:
+            import operator
+            OPS_ = {'Eq': operator.eq, 'NotEq': operator.ne,
+                    'Lt': operator.lt, 'LtE': operator.le,
+                    'Gt': operator.gt, 'GtE': operator.ge}
+            sol = [k for k in range(0, 8) if all(
+                op in OPS_ and OPS_[op](k, v) == q for op, v, q in cons)]
+            if sol == [1]:
+                return True
+        if isinstance(e, ast.Name):
+            defs = [n for n in walk_no_nested(func.node)
+                    if isinstance(n, ast.Assign) and any(
+                        isinstance(t, ast.Name) and t.id == e.id
+                        for t in n.targets)]
+            mapped = [False]
+
+            def one(v):
+                if isinstance(v, ast.Subscript) and \
+                        not isinstance(v.slice, ast.Slice):
+                    return True
+                if self._group_of_len1(func, v):
+                    return True
+                if isinstance(v, ast.Call) and not v.args and \
+                        isinstance(v.func, ast.Attribute) and \
+                        v.func.attr in ('upper', 'lower', 'casefold') and \
+                        isinstance(v.func.value, ast.Name) and \
+                        v.func.value.id == e.id:
+                    # the case mapping of one character can be longer
+                    # ('\xdf'.upper() == 'SS'); accepted only together with a
+                    # character-class test of the result (below)
+                    mapped[0] = True
+                    return True
+                return False
+            if defs and all(one(d_.value) for d_ in defs):
+                if not mapped[0]:
+                    return True
+                def char_class(a, q):
+                    """the test `a` having truth value q says that the
+                    variable is in a class of single characters"""
+                    if isinstance(a, ast.UnaryOp) and \
+                            isinstance(a.op, ast.Not):
+                        return char_class(a.operand, not q)
+                    if isinstance(a, ast.Call) and not a.args and \
+                            isinstance(a.func, ast.Attribute) and \
+                            a.func.attr in ('isdigit', 'isalpha',
+                                            'isalnum') and \
+                            norm(a.func.value) == e.id:
+                        return q
+                    if isinstance(a, ast.Compare) and len(a.ops) == 1 and \
+                            norm(a.left) == e.id and \
+                            isinstance(a.comparators[0], ast.Constant) and \
+                            isinstance(a.comparators[0].value, str):
+                        return (isinstance(a.ops[0], ast.In) and q) or \
+                            (isinstance(a.ops[0], ast.NotIn) and not q)
+                    return False
+                for t, pol in facts:
+                    if any(char_class(a, q)
+                           for a, q in GuardWalker._atoms(t, pol)):
+                        return True
+                    # `not (A and B)`: one of them is false - enough when
+                    # the falsity of each is such a test
+                    if isinstance(t, ast.BoolOp) and \
+                            isinstance(t.op, ast.And) and not pol and \
+                            all(char_class(v, False) for v in t.values):
+                        return True
+                    if isinstance(t, ast.BoolOp) and \
+                            isinstance(t.op, ast.Or) and pol and \
+                            all(char_class(v, True) for v in t.values):
+                        return True
+                return False
+        return self._group_of_len1(func, e)
+
+    def _group_of_len1(self, func, v):
+        from . import rx
+        from .guards import regex_const
+        if not (isinstance(v, ast.Call) and
+                isinstance(v.func, ast.Attribute) and
+                v.func.attr == 'group' and len(v.args) == 1 and
+                isinstance(v.args[0], ast.Constant) and
+                isinstance(v.args[0].value, int) and
+                isinstance(v.func.value, ast.Name)):
+            return False
+        mname, k = v.func.value.id, v.args[0].value
+        srcs = []
+        for n in walk_no_nested(func.node):
+            call = None
+            if isinstance(n, ast.For) and isinstance(n.target, ast.Name) \
+                    and n.target.id == mname:
+                call = n.iter
+            elif isinstance(n, ast.Assign) and any(
+                    isinstance(t, ast.Name) and t.id == mname
+                    for t in n.targets):
+                call = n.value
+            if call is None:
+                continue
+            if not (isinstance(call, ast.Call) and
+                    isinstance(call.func, ast.Attribute) and
+                    call.func.attr in ('finditer', 'match', 'search',
+                                       'fullmatch')):
+                return False
+            srcs.append(call.func.value)
+        if not srcs:
+            return False
+        for r_ in srcs:
+            rc = regex_const(self.repo, func, r_)
+            if not rc:
+                return False
+            try:
+                g = rx.group(rx.parse(rc[0], rc[1]), k)
+            except Exception:    # noqa: B902 - unparsable pattern
+                return False
+            if g is None or rx.min_len(g) != 1 or rx.max_len(g) != 1:
+                return False
+        return True
+
     def _call(self, func, call, stmt, out):
         d = dotted(call.func)
         # modelled primitives
@@ -634,6 +817,13 @@ class EscapeAnalysis:
                     e = Esc('ValueError', 'conv', func.file, func.qualname,
                             norm(call), call.lineno)
                     _put(out, e)
+            return
+        if d == 'ord' and len(call.args) == 1 and \
+                not isinstance(call.args[0], ast.Constant):
+            # ord() takes exactly one character
+            if not self._single_char(func, call.args[0], stmt):
+                _put(out, Esc('TypeError', 'conv', func.file, func.qualname,
+                              norm(call), call.lineno))
             return
         if self.model_decode:
             if isinstance(call.func, ast.Attribute) and \
